@@ -703,12 +703,21 @@ func addressTaken(f *ssa.Function) bool {
 	return false
 }
 
+// Exempt lists findings that were read and judged harmless: "function | description" -> one line of reason.
+var lockExempt = map[string]string{
+	"(*client.ReconnectClient).initDone$1 | read of p.subscribeDone without mu (R) held on that object": "the closer returned by initDone runs as Subscribe's own deferred call, on the goroutine that stored the field (initDone is its only writer); all cross-goroutine readers (Close) hold the mutex",
+}
+
 // Report turns the findings into obligations under the given rule ids.
 func (la *LockAudit) Report(ruleFor func(kind string) string) {
 	c := la.c
 	for _, x := range la.Findings {
 		rule := ruleFor(x.Kind)
 		if rule == "" {
+			continue
+		}
+		if why, ok := lockExempt[fnName(x.Fn)+" | "+x.Desc]; ok {
+			c.OK(rule, fnName(x.Fn), x.Desc+" (exempt)", c.P.Pos(x.Pos), "exemption: "+why)
 			continue
 		}
 		verdict := Violated
